@@ -1,4 +1,4 @@
 From Coq Require Import Extraction ExtrOcamlBasic NArith.
 From DV Require Import Base.Outcome C09.Gen C09.Model.
 Extraction Language OCaml.
-Extraction "../build/ml/C09/model.ml" c09_cell c09_trace.
+Extraction "../build/ml/C09/model.ml" c09_cell c09_trace c09_versions.
